@@ -33,9 +33,7 @@ def _corrupt(evs):
 
 
 def plans(tier):
-    if tier == "quick":
-        return [("d1-1d", 3, 1), ("d1-2d", 2, 3), ("d2-lean1", 2, 4), ("d2-lean2", 1, 12), ("d2-lean3", 1, 16)]
-    return [("d1-1d-wide", 8, 1), ("d1-2d", 8, 1), ("d2-lean1", 3, 1), ("d2-lean2", 2, 2), ("d2-lean3", 2, 2)]
+    return progcheck.standard_plans(tier)
 
 
 def run(chk):
